@@ -310,7 +310,13 @@ def _taint_function(chk, r1, fam: str, f: FuncInfo, derived_cols: Set[str], seen
                             tainted.add(x.id)
                     cls_ = "loop variable (judged at its uses)"
                 elif isinstance(st, ast.Return):
-                    escape = "returned"
+                    v = st.value
+                    if isinstance(v, ast.Call) and unparse(v.func) == "pd.concat" and v.args and isinstance(v.args[0], (ast.List, ast.Tuple)) \
+                            and kwarg(v, "axis") is not None and unparse(kwarg(v, "axis")) == "1" \
+                            and all(isinstance(x, ast.Name) and (x.id not in tainted or x.id.startswith(USAGE)) for x in v.args[0].elts):
+                        cls_ = "pass-through (usage series becomes the output's observed column)"
+                    else:
+                        escape = "returned"
                 elif isinstance(st, ast.If):
                     body_stmts = [x for b in st.body + st.orelse for x in ast.walk(b) if isinstance(x, ast.stmt)]
                     cols = set()
